@@ -54,6 +54,12 @@ func C12() api.Check {
 		variants: allVariants,
 		gen: func(seed uint64, idx int, tier string) item {
 			var c *gen.Case
+			if idx%12 == 5 {
+				// accesses of every alignment, on the two variants whose count is
+				// judged against the latency table (no data cache involved)
+				s := rng.Derive(seed, 0x512)
+				return item{c: gen.Unaligned(seed), aux: []int{int(uint32(s)), int(uint32(s >> 32))}, sub: "unaligned", only: []mach.Variant{mach.MVP1, mach.MVP2}}
+			}
 			if idx%3 == 0 {
 				c = gen.ISASweep(seed)
 			} else if idx%6 == 1 {
